@@ -389,10 +389,9 @@ func NewRateLimiter(config RateLimiterConfig) *RateLimiter {
 
 // AllowRequest checks if a request should be allowed
 func (rl *RateLimiter) AllowRequest(ip string, connID string) bool {
-	// Check global limit first
-	if !rl.globalLimiter.Allow() {
-		return false
-	}
+	// Check the client's own limits first and the shared global limit last: a
+	// request that its own per-IP or per-connection limit refuses must not
+	// consume global capacity, or one abusive client could starve all others.
 
 	// Check per-IP limit
 	if !rl.perIPLimiter.Allow(ip) {
@@ -416,7 +415,8 @@ func (rl *RateLimiter) AllowRequest(ip string, connID string) bool {
 		}
 	}
 
-	return true
+	// Check global limit
+	return rl.globalLimiter.Allow()
 }
 
 // AllowOperation checks if a specific operation type should be allowed
